@@ -42,6 +42,7 @@ struct Stats {
     verifies_ok: u64,
     boundary_blocks: u64,
     m128: u64,
+    rewinds: u64,
     fingerprints: HashSet<(usize, u16, bool, &'static str, bool)>,
     sample: Option<J>,
 }
@@ -208,7 +209,27 @@ fn run_history(ctx: &Ctx, hid: u64, st: &mut Stats) {
     let n_complete = if truncated && !half_length_word { blocks.len() - 1 } else { blocks.len() };
     st.histories += 1;
     st.m128 += is128 as u64;
-    for k in 0..blocks.len() + extra {
+    // the deck may be rewound between requests (a C12 command): the next request then meets the
+    // first block again, whatever the previous request left unread
+    let mut order: Vec<(usize, bool)> = vec![];
+    let mut pos = 0usize;
+    for _ in 0..blocks.len() + extra {
+        let rw = !truncated && pos > 0 && rng.chance(1, 6);
+        if rw {
+            pos = 0;
+        }
+        order.push((pos, rw));
+        pos += 1;
+    }
+    for (k, rewind_first) in order {
+        if rewind_first {
+            if let Err(e) = m.emu.rewind_tape() {
+                ctx.violation("c10-rewind-error", &format!("rewind_tape failed on a well-formed tape: {:?}", e), jobj! {"history"=>hid,"earlier_requests"=>J::Arr(log.clone())});
+                return;
+            }
+            st.rewinds += 1;
+            log.push(jobj! {"rewind"=>true});
+        }
         let case = |info: J| {
             jobj! {"history"=>hid, "seed"=>ctx.seed, "is128"=>is128, "fastload_enabled_via"=>if via_setter {"set_fast_load"} else {"settings"},
             "tap_hex"=>if img.len() <= 2048 { hex(&img) } else { format!("{}.. ({} bytes; regenerate from seed/history)", hex(&img[..256]), img.len()) },
@@ -363,6 +384,7 @@ pub fn run(ctx: &Ctx) -> Evidence {
             verifies_ok: 0,
             boundary_blocks: 0,
             m128: 0,
+            rewinds: 0,
             fingerprints: HashSet::new(),
             sample: None,
         };
@@ -382,6 +404,7 @@ pub fn run(ctx: &Ctx) -> Evidence {
     let mut fps = HashSet::new();
     let mut exits = [0u64; 5];
     let (mut reqs, mut eot, mut tr, mut lo, mut vo, mut bb, mut h, mut m128) = (0, 0, 0, 0, 0, 0, 0, 0);
+    let mut rewinds = 0u64;
     for r in res {
         reqs += r.requests;
         eot += r.eot_requests;
@@ -391,6 +414,7 @@ pub fn run(ctx: &Ctx) -> Evidence {
         bb += r.boundary_blocks;
         h += r.histories;
         m128 += r.m128;
+        rewinds += r.rewinds;
         for i in 0..5 {
             exits[i] += r.exits[i];
         }
@@ -409,6 +433,7 @@ pub fn run(ctx: &Ctx) -> Evidence {
     ev.add("successful_loads", lo as u64);
     ev.add("successful_verifies", vo as u64);
     ev.add("requests_on_buffer_boundary_blocks", bb as u64);
+    ev.add("rewinds_between_requests", rewinds);
     let names = ["parity-ok", "parity-bad", "flag-mismatch", "verify-mismatch", "out-of-bytes"];
     ev.add("exit_paths", J::Arr((0..5).map(|i| jobj! {"exit"=>names[i], "count"=>exits[i]}).collect()));
     ev.assumptions.push("stack window [SP-24,SP+4) excluded from the RAM comparison; stored ranges never overlap it".into());
